@@ -232,6 +232,7 @@ func c11(c *Ctx) {
 	os.Stderr = oldStderr
 	if c.Replay == "" {
 		c11EndToEnd(c, r)
+		c11Precedence(c, r.Fork())
 	}
 }
 
@@ -264,6 +265,88 @@ func runIn(dir string, env []string, name string, args ...string) (string, int) 
 // c11EndToEnd: hostile .lfsconfig in three locations; the observable configuration (`git lfs env`
 // without the warning block) must equal that of the same repository without the file, no sentinel
 // program may run, and `git lfs clean` must still work.
+// c11Precedence: a documented key set BOTH in .lfsconfig (worktree, index or HEAD) and in Git's own
+// configuration — the effective value, as `git lfs env` prints it, must be exactly Git's value (not
+// the repository's, not a merge of the two); set in .lfsconfig alone it takes effect.
+func c11Precedence(c *Ctx, r *Rng) {
+	type kv struct {
+		key    string
+		label  string
+		vals   [2]string // [.lfsconfig value, git config value]
+		render func(v string) string
+	}
+	id := func(v string) string { return v }
+	list := func(v string) string { return strings.Join(strings.Split(v, ","), ", ") }
+	keys := []kv{
+		{"lfs.fetchinclude", "FetchInclude=", [2]string{"assets,docs,extra", "assets,docs"}, list},
+		{"lfs.fetchexclude", "FetchExclude=", [2]string{"assets", "docs"}, list},
+		{"lfs.skipdownloaderrors", "SkipDownloadErrors=", [2]string{"true", "false"}, id},
+		{"lfs.url", "Endpoint=", [2]string{"https://repo.example.invalid/lfs", "https://mine.example.invalid/lfs"}, func(v string) string { return v + " (auth=none)" }},
+	}
+	n := c.N(40, 400)
+	for i := 0; i < n; i++ {
+		k := keys[r.Intn(len(keys))]
+		where := Pick(r, []string{"worktree", "index", "head"})
+		both := r.Chance(65)
+		swap := r.Bool()
+		repoVal, gitVal := k.vals[0], k.vals[1]
+		if swap {
+			repoVal, gitVal = gitVal, repoVal
+		}
+		dir := filepath.Join(c.Work, fmt.Sprintf("c11p-%d", i))
+		if gitInit(dir) != nil {
+			continue
+		}
+		cfgFile := filepath.Join(c.Work, fmt.Sprintf("c11p-%d.gitconfig", i))
+		os.WriteFile(cfgFile, []byte("[user]\n\tname = v\n\temail = v@example.invalid\n"), 0o644)
+		env := []string{"GIT_CONFIG_GLOBAL=" + cfgFile}
+		section, name := k.key[:3], k.key[4:]
+		os.WriteFile(filepath.Join(dir, ".lfsconfig"), []byte("["+section+"]\n\t"+name+" = "+repoVal+"\n"), 0o644)
+		if where != "worktree" {
+			runIn(dir, env, "git", "add", ".lfsconfig")
+			if where == "head" {
+				runIn(dir, env, "git", "commit", "-qm", "cfg")
+				runIn(dir, env, "git", "rm", "-q", "--cached", ".lfsconfig")
+			}
+			os.Remove(filepath.Join(dir, ".lfsconfig"))
+			if where == "head" {
+				// only HEAD holds it: neither worktree nor index
+			}
+		}
+		if both {
+			if r.Bool() {
+				runIn(dir, env, "git", "config", "--local", k.key, gitVal)
+			} else {
+				runIn(dir, env, "git", "config", "--file", cfgFile, k.key, gitVal)
+			}
+		}
+		out, _ := runIn(dir, env, c.Lfs, "env")
+		got := ""
+		for _, l := range strings.Split(out, "\n") {
+			if strings.HasPrefix(l, k.label) {
+				got = strings.TrimPrefix(l, k.label)
+				break
+			}
+		}
+		want := k.render(repoVal)
+		if both {
+			want = k.render(gitVal)
+		}
+		enc := fmt.Sprintf("C11 precedence key=%s lfsconfig(%s)=%s gitconfig=%v:%s", k.key, where, repoVal, both, gitVal)
+		c.R.Eval(enc, both)
+		c.R.Count("precedence." + k.key)
+		if got != want {
+			what := "a documented .lfsconfig key set alone did not take effect"
+			if both {
+				what = "a value set in Git's own configuration did not win over the .lfsconfig value"
+			}
+			c.R.Add(Finding{Kind: "oracle", What: what, Case: enc, Impl: fmt.Sprintf("git lfs env: %s%q, expected %q", k.label, got, want)})
+		}
+		os.RemoveAll(dir)
+		os.Remove(cfgFile)
+	}
+}
+
 func c11EndToEnd(c *Ctx, r *Rng) {
 	hostile := [][2]string{
 		{"lfs.extension.evil.clean", "SENTINEL clean"}, {"lfs.extension.evil.smudge", "SENTINEL smudge"}, {"lfs.extension.evil.priority", "0"},
